@@ -286,10 +286,13 @@ auto subsampled_view(any_image_view<Views...> const& src, std::ptrdiff_t x_step,
 namespace detail {
 
 template <typename View>
-struct get_nthchannel_type { using type = typename nth_channel_view_type<View>::type; };
+using get_nthchannel_type = typename nth_channel_view_type<View>::type;
 
 template <typename Views>
-struct views_get_nthchannel_type : mp11::mp_transform<get_nthchannel_type, Views> {};
+struct views_get_nthchannel_type
+{
+    using type = mp11::mp_transform<get_nthchannel_type, Views>;
+};
 
 } // namespace detail
 
@@ -298,7 +301,7 @@ struct views_get_nthchannel_type : mp11::mp_transform<get_nthchannel_type, Views
 template <typename ...Views>
 struct nth_channel_view_type<any_image_view<Views...>>
 {
-    using type = typename detail::views_get_nthchannel_type<any_image_view<Views...>>;
+    using type = typename detail::views_get_nthchannel_type<any_image_view<Views...>>::type;
 };
 
 /// \ingroup ImageViewTransformationsNthChannel
